@@ -18,7 +18,7 @@ coefficients at 2047 while this library and the specification accept up to the n
 stay far below 2047).
 -/
 namespace Falcon.Props.C16
-open Falcon
+open Falcon Falcon.KeyCodec
 
 /-- same lengths, headers, widths and modulus on both sides, for both variants -/
 theorem format_parameters_agree :
@@ -73,6 +73,50 @@ theorem reference_reads_our_public_keys (logn N : Nat) (hN : (logn = 9 ∧ N = 5
   rw [RefEq.pkDecode_eq logn N hN _ hwf]
   unfold RefEq.oursPk
   rw [hrt]
+
+private theorem bind_ok_inv {α β : Type} (x : Res α) (f : α → Res β) (b : β) (h : (x >>= f) = .ok b) :
+    ∃ a, x = .ok a ∧ f a = .ok b := by
+  cases x with
+  | ok a => exact ⟨a, rfl, h⟩
+  | panic k => simp at h
+
+/-- what `SecretKey::to_bytes` writes are bytes -/
+theorem skToBytes_bytes (chk : Bool) (f g cF : List Int) (b : List Nat) (h : skToBytes chk f g cF = .ok b) :
+    ∀ x ∈ b, x < 256 := by
+  unfold skToBytes at h
+  cases hw : skWidthFG g.length with
+  | panic k => simp [hw] at h
+  | ok wf =>
+    simp only [hw, Res.bind_ok] at h
+    obtain ⟨fb, _, h⟩ := bind_ok_inv _ _ _ h
+    obtain ⟨gb, _, h⟩ := bind_ok_inv _ _ _ h
+    obtain ⟨Fb, _, h⟩ := bind_ok_inv _ _ _ h
+    simp only [Res.pure_eq, Res.ok.injEq] at h
+    subst h
+    exact RefEq.bytesOfBits_lt _
+
+/-- hence the reference decodes every secret key this library writes — every (f, g, F) inside the ranges the
+    key-generation guards enforce — to the same residues, for both variants and both build modes -/
+theorem reference_reads_our_secret_keys (chk : Bool) (logn N : Nat) (hN : (logn = 9 ∧ N = 512) ∨ (logn = 10 ∧ N = 1024))
+    (f g cF : List Int) (lf : f.length = N) (lg : g.length = N) (lF : cF.length = N)
+    (hf : ∀ x ∈ f, x.natAbs ≤ 2 ^ ((if N = 1024 then 5 else 6) - 1) - 1)
+    (hg : ∀ x ∈ g, x.natAbs ≤ 2 ^ ((if N = 1024 then 5 else 6) - 1) - 1)
+    (hF : ∀ x ∈ cF, x.natAbs ≤ 127) :
+    ∃ b, skToBytes chk f g cF = .ok b ∧
+      (RefFormat.skDecode logn b).map (fun t => (t.1.map Zq.new, t.2.1.map Zq.new, t.2.2.map Zq.new)) =
+        some (f.map Zq.new, g.map Zq.new, cF.map Zq.new) := by
+  have hrt : ∃ b, skToBytes chk f g cF = .ok b ∧
+      skFromBytes N b = .ok (.ok (f.map Zq.new, g.map Zq.new, cF.map Zq.new)) := by
+    rcases hN with ⟨_, rfl⟩ | ⟨_, rfl⟩
+    · obtain ⟨b, h1, _, h2⟩ := sk_roundtrip chk 512 6 1280 (Or.inl ⟨rfl, rfl, rfl⟩) f g cF lf lg lF
+        (fun x hx => by simpa using hf x hx) (fun x hx => by simpa using hg x hx) hF
+      exact ⟨b, h1, h2⟩
+    · obtain ⟨b, h1, _, h2⟩ := sk_roundtrip chk 1024 5 2304 (Or.inr ⟨rfl, rfl, rfl⟩) f g cF lf lg lF
+        (fun x hx => by simpa using hf x hx) (fun x hx => by simpa using hg x hx) hF
+      exact ⟨b, h1, h2⟩
+  obtain ⟨b, h1, h2⟩ := hrt
+  refine ⟨b, h1, ?_⟩
+  rw [reference_secret_key_decoder_agrees logn N hN b (skToBytes_bytes chk f g cF b h1), h2]
 
 /-- what this side sends to the reference verifier is an honest signature of the hashed salt: the loop structure of
     `sign` as extracted (retry iff norm > bound; the salt buffer is filled once, before hashing, and not again on a
